@@ -322,7 +322,32 @@ pub fn dispatch(_m: &mut Machine, name: &str, args: &[&str]) -> Option<R> {
             let a = x25519::SecretKey::try_from(&b[..]).is_ok();
             let c = x25519::PublicKey::try_from(&b[..]).is_ok();
             let d = x25519::SharedSecret::try_from(&b[..]).is_ok();
-            Ok(format!("{}{}{}", obs_bool(a), obs_bool(c), obs_bool(d)))
+            // the bytes each wrapper holds afterwards (a conversion must not alter them)
+            let mut o = format!("{}{}{}", obs_bool(a), obs_bool(c), obs_bool(d));
+            if let Ok(x) = x25519::SecretKey::try_from(&b[..]) {
+                o.push('.');
+                o.push_str(&hex(x.as_ref()));
+            }
+            if let Ok(x) = x25519::PublicKey::try_from(&b[..]) {
+                o.push('.');
+                o.push_str(&hex(x.as_ref()));
+            }
+            if let Ok(x) = x25519::SharedSecret::try_from(&b[..]) {
+                o.push('.');
+                o.push_str(&hex(x.as_ref()));
+            }
+            Ok(o)
+        })(),
+        // x25519_dh_try <k> <u>: dh with both keys built through TryFrom<&[u8]>
+        "x25519_dh_try" => (|| {
+            need(args, 2)?;
+            let k = arg_bytes(args[0])?;
+            let u = arg_bytes(args[1])?;
+            let n = x25519::SecretKey::try_from(&k[..]).map_err(|_| "need-32-bytes".to_string())?;
+            let p = x25519::PublicKey::try_from(&u[..]).map_err(|_| "need-32-bytes".to_string())?;
+            let s: [u8; 32] = x25519::dh(&n, &p).into();
+            let q: [u8; 32] = x25519::base(&n).into();
+            Ok(format!("{}.{}", hex(&s), hex(&q)))
         })(),
         // x25519_iter <k> <u> <n>: RFC 7748 section 5.2 iteration
         "x25519_iter" => (|| {
@@ -348,7 +373,9 @@ pub fn dispatch(_m: &mut Machine, name: &str, args: &[&str]) -> Option<R> {
         "ed_sign" => (|| {
             need(args, 2)?;
             let msg = arg_bytes(args[0])?;
-            Ok(hex(&ed25519::signature(&msg, &b64(args[1])?)))
+            let kp = arg_bytes(args[1])?;
+            let kp: &[u8; 64] = <&[u8; 64]>::try_from(kp.as_slice()).map_err(|_| "need-64-bytes".to_string())?;
+            Ok(hex(&ed25519::signature(&msg, kp)))
         })(),
         "ed_sign_ext" => (|| {
             need(args, 2)?;
@@ -359,10 +386,15 @@ pub fn dispatch(_m: &mut Machine, name: &str, args: &[&str]) -> Option<R> {
             need(args, 1)?;
             Ok(hex(&ed25519::extended_to_public(&b64(args[0])?)))
         })(),
+        // the key and signature arrays are used where the argument parser placed them (`@k:` prefix), not copied
         "ed_verify" => (|| {
             need(args, 3)?;
             let msg = arg_bytes(args[0])?;
-            Ok(obs_bool(ed25519::verify(&msg, &b32(args[1])?, &b64(args[2])?)))
+            let pk = arg_bytes(args[1])?;
+            let sig = arg_bytes(args[2])?;
+            let pk: &[u8; 32] = <&[u8; 32]>::try_from(pk.as_slice()).map_err(|_| "need-32-bytes".to_string())?;
+            let sig: &[u8; 64] = <&[u8; 64]>::try_from(sig.as_slice()).map_err(|_| "need-64-bytes".to_string())?;
+            Ok(obs_bool(ed25519::verify(&msg, pk, sig)))
         })(),
         // ed_exchange <public32> <seed32>
         "ed_exchange" => (|| {
